@@ -453,3 +453,6 @@ impl<'w, 's, T: EntityWorldReactor> EntityLocal<'w, 's, T>
 }
 
 //-------------------------------------------------------------------------------------------------------------------
+
+#[cfg(bevy_cobweb_verif)]
+impl EntityReactionAccessTracker { pub(crate) fn verif_state(&self) -> (bool, usize) { (self.currently_reacting, self.prepared.len()) } }
